@@ -463,6 +463,24 @@ def task_cpp_twin(p, rho, rrho, variant, tier, seed, label):
         part.harness_error(f"{key_base}: {ex}")
         return part.d
     try:
+        # "defaults the rest" on the C++ side: Options objects default-initialised over dirty (0xFF) memory and handed
+        # to the constructors read back as zeros (plain-double build; the symbolic scalar's own default is a zero constant)
+        try:
+            ca.compile_concrete()
+            e0 = {nm: 0.5 for nm in env_p}
+            for a_ in p.s_state():
+                for b_ in p.s_state():
+                    if a_ <= b_:
+                        e0[f"P_{a_}_{b_}"] = 1.0 if a_ == b_ else 0.0
+            douts, _, _ = ca.run_concrete("defaults", e0)
+            badd = sorted(nm for nm, v in douts.items() if nm.startswith(("s2_", "r0_")) and not (v == 0.0))
+            part.record(Q("sat" if badd else "unsat", None, 0.0, ""), f"{key_base}: C++ State / readings constructed from a default-initialised Options object are all zero (plain-double build, dirty memory)")
+            if badd:
+                path = write_replay(PID, {"key": f"cpp-ctor/{p.id}/defaults-options", "info": dict(info, kind="cpp-defaults"), "inputs": e0, "bad": {nm: repr(douts[nm]) for nm in badd[:6]}})
+                part.violation(f"cpp-ctor/{p.id}/defaults-options", f"generated C++: a default-initialised Options object does not default its members to zero: {[(nm, douts[nm]) for nm in badd[:4]]}", path)
+                return part.d
+        except build.BuildError as ex:
+            part.d["inconclusive"].append(f"{key_base}: defaults scenario (plain-double build): {str(ex)[:120]}")
         try:
             cb = CppFilter(q, ekf=True, cse=True, k=None, container=variant.get("container", "list"), reverse=variant.get("reverse", False), cal_container=variant.get("cal_container", "set"))
             cb.__enter__()
@@ -657,6 +675,15 @@ def replay(path):
     with open(path) as f:
         r = json.load(f)
     info = r["info"]
+    if info["kind"] == "cpp-defaults":
+        ps_ = {p_.id: p_ for p_ in CP.catalogue()}
+        with CppFilter(ps_[info["program"]], ekf=True, cse=True, k=None) as cf_:
+            cf_.compile_concrete()
+            douts, _, _ = cf_.run_concrete("defaults", r["inputs"])
+        badd = sorted(nm for nm, v in douts.items() if nm.startswith(("s2_", "r0_")) and not (v == 0.0))
+        print(badd[:6])
+        print("REPRODUCED" if badd else "not reproduced")
+        return 1 if badd else 0
     if info["kind"] == "ctor":
         bad = _ctor_concrete_bad(info["names"], info["decl"], info["which"], info["given"])
         print("REPRODUCED" if bad else "not reproduced")
